@@ -646,6 +646,12 @@ FIXED_PROGRAMS = [
             '        a = fp.round(max(u, v))\n        b = fp.round(min(u, y))\n        return a + b\n'),
     ('kw5', 'import fpy2 as fp\n\n@fp.fpy(ctx=fp.FP64)\ndef kw5(x, y):\n    t = (x / y, x * y)\n    with fp.FP16:\n'
             '        a = fp.round(fp.fst(t))\n        b = fp.round(fp.snd(t))\n        return a - b\n'),
+    # if/else that both mutates variables and introduces new ones in both arms (bundled into one tuple by the backend)
+    ('kw7', 'import fpy2 as fp\n\n@fp.fpy(ctx=fp.FP64)\ndef kw7(x, y):\n    a = x + y\n    if x < y:\n        a = a * x\n'
+            '        b = a + y\n    else:\n        a = a / y\n        b = x - a\n    return (a * b) + a\n'),
+    ('kw8', 'import fpy2 as fp\n\n@fp.fpy(ctx=fp.FP64)\ndef kw8(x, y):\n    a = x + y\n    c = x * y\n    if a < c:\n        c = c - a\n'
+            '        p = c * x\n        a = a + fp.round(1)\n        q = p / y\n    else:\n        q = a / y\n        a = a * c\n'
+            '        p = q - x\n        c = c + fp.round(2)\n    return ((a - c) * p) + q\n'),
     ('kw6', 'import fpy2 as fp\n\n@fp.fpy(ctx=fp.FP64)\ndef kw6(x, y):\n    u = x / y\n    with fp.FP32:\n'
             '        a = fp.round(max(u, y))\n        with fp.FP16:\n            b = fp.round(min(a, u))\n            return b\n'),
 ]
